@@ -520,7 +520,40 @@ class Emitter:
 
     def e_ConditionalOperator(self, n):
         c, a, b = n["inner"]
-        return "(%s ? %s : %s)" % (self.paren(self.E(c)), self.paren(self.E(a)), self.paren(self.E(b)))
+        # Plain form when both arms are pure expressions. When an arm needs statements of its own (a temporary built by
+        # a constructor, `throw X(..)` as an arm), the ?: becomes `T t; if (c) { ..; t = a; } else { ..; t = b; }` hoisted
+        # before the enclosing statement; only when this ?: is not itself evaluated conditionally.
+        throws = [skip(x).get("kind") == "CXXThrowExpr" for x in (a, b)]
+        if not any(throws):
+            mark = (len(self.pre), self.unit.tmp)
+            try:
+                return "(%s ? %s : %s)" % (self.paren(self.E(c)), self.paren(self.E(a)), self.paren(self.E(b)))
+            except Unsupported:
+                del self.pre[mark[0]:]
+                self.unit.tmp = mark[1]
+        depth = getattr(self, "lazy_depth", 0)
+        if depth != 1:
+            raise Unsupported("?: whose arms need statements, inside a conditionally evaluated expression")
+        ce = self.paren(self.E(c))
+        ct = self.ctype(n)
+        self.unit.tmp += 1
+        tmp = "__t%d" % self.unit.tmp
+        saved, arms = self.pre, []
+        try:
+            self.lazy_depth = 0
+            for x, thr in zip((a, b), throws):
+                self.pre = []
+                if thr:
+                    arms.append(self.s_CXXThrowExpr(skip(x), "")[0])
+                else:
+                    e = self.E(x)
+                    arms.append("{ %s %s = %s; }" % (" ".join(self.pre), tmp, e))
+        finally:
+            self.lazy_depth = depth
+            self.pre = saved
+        self.pre.append("%s %s;" % (ct, tmp))
+        self.pre.append("if (%s) %s else %s" % (ce, arms[0], arms[1]))
+        return tmp
 
     def e_ArraySubscriptExpr(self, n):
         a, b = n["inner"]
@@ -745,6 +778,13 @@ class Emitter:
         if isref:
             ret += "*"
         cname = self.fn_cname(tag, name, None)
+        # member function templates (clang prints no template arguments at the call): config
+        # template_methods {"Class__method": "arg<i>" | "ret"} names the instantiation after the C type of that
+        # argument / of the result, e.g. Channel::pack<int>(v) -> Channel__pack__int, unpack<bool>() -> Channel__unpack__bool
+        tsel = self.cfg.get("template_methods", {}).get((tag + "__" if tag else "") + name)
+        if tsel is not None:
+            tct = ret if tsel == "ret" else pcs[int(tsel[3:])]
+            cname += "__" + re.sub(r"_+", "_", ident(tct.replace("*", " ptr"))).strip("_")
         pc = (["struct %s*" % tag] if obj is not None else []) + pcs
         self.note_proto(cname, ret, pc, "%s::%s (signature inferred at call site)" % (tag, name))
         self.callees.setdefault(cname, "%s::%s" % (tag, name))
@@ -782,6 +822,34 @@ class Emitter:
         r = self.lib.construct(self, n) if self.lib else None
         if r is not None:
             return r
+        # temporary of a plain (SimGrid) class built by a user constructor: `struct X __t; X__ctor(&__t, args);`
+        # hoisted before the statement (the constructor is a unit or a callee under contract); not under ?: && ||
+        ct = self.try_ctype(n)
+        fnt = n.get("ctorType", {}).get("qualType")
+        if ct and fnt and ct.startswith("struct ") and not ct.startswith("struct vf_") and not ct.endswith("*") and \
+                getattr(self, "lazy_depth", 0) == 0:
+            tag = ct[len("struct "):]
+            cn = self.fn_cname(tag, "ctor", fnt)
+            fps = self.fn_params_from(fnt)
+            args = []
+            for i, a in enumerate(n.get("inner", [])):
+                if a.get("kind") == "CXXDefaultArgExpr" and not a.get("inner"):
+                    d = self.cfg.get("default_args", {}).get(cn, {}).get(str(i))
+                    if d is None:
+                        raise Unsupported("default argument %d in call to %s (add default_args[%s] to the config)" %
+                                          (i, cn, cn))
+                    args.append(d[1])
+                else:
+                    args.append(self.arg(a, fps[i] if fps and i < len(fps) else None))
+            self.note_proto(cn, "void", ["struct %s*" % tag] + self.param_ctypes_from(fnt), "ctor %s %s" % (tag, fnt))
+            self.callees.setdefault(cn, "%s::%s %s" % (qt(n), tag, fnt))
+            self.structs.setdefault(tag, {})
+            self.unit.tmp += 1
+            tmp = "__t%d" % self.unit.tmp
+            self.pre.append("%s %s;" % (ct, tmp))
+            self.pre.append("%s(%s);" % (cn, ", ".join(["&" + tmp] + args)))
+            self.pre.append("if (vf_exc) " + self.ret_zero())
+            return tmp
         raise Unsupported("constructor of %s (%s)" % (qt(n), n.get("ctorType", {}).get("qualType")))
 
     e_CXXTemporaryObjectExpr = e_CXXConstructExpr
@@ -812,6 +880,8 @@ class Emitter:
         m = getattr(self, "s_" + k, None)
         if m is not None:
             return m(n, ind)
+        if k in TRANSPARENT and skip(n).get("kind") == "CXXThrowExpr":  # `throw X(..);` wrapped in ExprWithCleanups
+            return self.s_CXXThrowExpr(skip(n), ind)
         # expression statement
         saved = self.pre
         self.pre = []
@@ -876,7 +946,7 @@ class Emitter:
             # (an `if` of the program that merely CONTAINS a log statement is NOT a log statement)
             return then.get("kind") == "CompoundStmt" and len(then.get("inner", [])) >= 1 and \
                 all(self.is_log_event_part(s) for s in then["inner"]) and \
-                any(s.get("kind") == "CallExpr" for s in then["inner"])
+                any(skip(s).get("kind") == "CallExpr" for s in then["inner"])  # (call may sit in ExprWithCleanups)
         if k == "CompoundStmt":
             ss = n.get("inner", [])
             return len(ss) >= 1 and all(self.is_log_stmt(s) for s in ss)
